@@ -62,3 +62,10 @@ check(
     "Hypothesis property-based testing; diff round-trip with an independent strict applier; snapshot differencing",
     "DESIGN.md §3 C03",
 )
+check(
+    "C15", "exploration",
+    "Validity-predicate search over generated run shapes (0-4 codemods of every kind incl. unknown ids; 0-4 generated programs; undecodable/syntax-error/empty/NUL files; empty or non-Python-only directories; non-ASCII and astral file names and content; manifests; --dry-run; four directory spellings): every report of a run that exits 0 is validated against a hand-written JSON Schema and structural invariants that relate it to the registry (id, summary, description, references), the executed sequence (log), and the tree snapshots (changeset paths exist, diffs non-empty, change line numbers inside the file, failed/changed disjoint, SAST tool/rule/finding ids within the codemod's declared rules).",
+    "Trusted: the hand-written schema (the official CodeTF schema is only available from the network); line numbers accepted in original or new numbering; runs that exit non-zero are outside the statement's premise and are counted, not judged.",
+    "Hypothesis property-based testing; JSON Schema + structural invariants as validity predicate",
+    "DESIGN.md §3 C15",
+)
